@@ -300,6 +300,43 @@ theorem g_hist (ds : List GVal) (n : Nat) (ops : List GStep) :
       simp only [runG]
       exact ⟨by rw [h.1, hs], by rw [h.2, hs]⟩
 
+/-! ### the harness history step: deep mutation of everything reachable from a result -/
+
+theorem assignAll_ext (n : Nat) (g : GStore → Loc → Entries) (ls : List Loc) :
+    ∀ (σ : GStore), (∀ l ∈ ls, n ≤ l) → GExt n σ (ls.foldl (fun σ l => assign σ l (g σ l)) σ) := by
+  induction ls with
+  | nil => intro σ _; exact GExt.refl _ _
+  | cons l ls ih =>
+    intro σ hl
+    simp only [List.foldl_cons]
+    exact (assign_ext n σ l _ (hl l (List.mem_cons_self ..))).trans
+      (ih (assign σ l (g σ l)) (fun x hx => hl x (List.mem_cons_of_mem _ hx)))
+
+/-- deep in-place mutation of everything reachable from a value whose cells all lie at or above `n` writes nothing below `n` -/
+theorem mutateAll_ext (n : Nat) (σ : GStore) (v : GVal) (hv : ∀ x ∈ reach gdepth σ.heap v, n ≤ x) :
+    GExt n σ (mutateAll σ v) :=
+  assignAll_ext n (fun σ l => scrubCell (readG σ.heap l)) (reach gdepth σ.heap v) σ hv
+
+/-- **g_parse_mutate_parse** (no side conditions beyond well-formedness): Parse(nil), then the caller changes every
+    scalar of every cell it can reach from the result — at any nesting of maps, slices, pointees, structs and arrays —
+    and adds an entry to each cell; the next Parse(nil) returns a value that looks exactly like the untouched default,
+    and the schema's default graph still consists of the same cells with the same contents. -/
+theorem g_parse_mutate_parse (σ : GStore) (d : GVal) (hw : ∀ x ∈ reach gdepth σ.heap d, x < σ.next) :
+    ser gdepth (parseNilG true (mutateAll (parseNilG true σ d).1 (parseNilG true σ d).2) d).1.heap
+        (parseNilG true (mutateAll (parseNilG true σ d).1 (parseNilG true σ d).2) d).2 = ser gdepth σ.heap d ∧
+    ser gdepth (mutateAll (parseNilG true σ d).1 (parseNilG true σ d).2).heap d = ser gdepth σ.heap d := by
+  obtain ⟨e1, hfresh, _⟩ := g_result_fresh σ d hw
+  have e2 := mutateAll_ext σ.next (parseNilG true σ d).1 (parseNilG true σ d).2 hfresh
+  have e : GExt σ.next σ (mutateAll (parseNilG true σ d).1 (parseNilG true σ d).2) := e1.trans e2
+  have hfr := g_graph_frame gdepth σ.next σ _ d e hw
+  have hw' : ∀ x ∈ reach gdepth (mutateAll (parseNilG true σ d).1 (parseNilG true σ d).2).heap d,
+      x < (mutateAll (parseNilG true σ d).1 (parseNilG true σ d).2).next := by
+    intro x hx
+    rw [hfr.1] at hx
+    exact Nat.lt_of_lt_of_le (hw x hx) e.1
+  refine ⟨?_, hfr.2⟩
+  rw [(g_result_fresh _ d hw').2.2, hfr.2]
+
 /-! ### caller data: by-value inputs -/
 
 def rstep (rw : Nat → GVal → Option (Nat × GVal)) (f : Nat) (acc : GStore × Entries) (p : Nat × GVal) : GStore × Entries :=
